@@ -437,6 +437,10 @@ Definition rdataset_from_args (deleting : bool) (args : list arg) : res (option 
       end
   end.
 
+(* isinstance(arg, int) or isinstance(arg, str) *)
+Definition is_type_arg (a : arg) : bool :=
+  match a with AInt _ | ATyStr _ | AStr _ => true | _ => false end.
+
 (* the first part of Transaction._add: owner name, rdataset, arguments left *)
 Definition add_parse (a : arg) (rest : list arg) : res (name * rds * list arg) :=
   match a with
@@ -504,6 +508,24 @@ Section HighLevel.
         end
     end.
 
+  (* _delete, "deleting by type and (optionally) covers" *)
+  Definition hl_delete_bytype (exact : bool) (n : name) (t : arg) (rest1 : list arg) (s : S) : res S :=
+    do ty <- make_type t;
+    do x <- match rest1 with
+            | [] => Ok (0, [])
+            | c0 :: rest2 => do cv <- make_type c0; Ok (cv, rest2)
+            end;
+    let '(cov, rest2) := x in
+    match rest2 with
+    | _ :: _ => Lib eTypeError
+    | [] =>
+        do ex <- s_get st s n ty cov;
+        match ex with
+        | None => if exact then Lib eDeleteNotExact else Ok s
+        | Some _ => s_del_rds st s n ty cov
+        end
+    end.
+
   (* Transaction._delete *)
   Definition hl_delete (exact : bool) (args : list arg) (s : S) : res S :=
     match args with
@@ -511,26 +533,12 @@ Section HighLevel.
     | a :: rest =>
         match a with
         | AName n | AStr n =>
+            (* len(args) > 0 and (isinstance(args[0], int) or isinstance(args[0], str)) *)
             match rest with
-            | (AInt _ | ATyStr _ | AStr _) as t :: rest1 =>
-                do ty <- make_type t;
-                do x <- match rest1 with
-                        | [] => Ok (0, [])
-                        | c0 :: rest2 => do cv <- make_type c0; Ok (cv, rest2)
-                        end;
-                let '(cov, rest2) := x in
-                match rest2 with
-                | _ :: _ => Lib eTypeError
-                | [] =>
-                    do ex <- s_get st s n ty cov;
-                    match ex with
-                    | None => if exact then Lib eDeleteNotExact else Ok s
-                    | Some _ => s_del_rds st s n ty cov
-                    end
-                end
-            | _ =>
-                do y <- rdataset_from_args true rest;
-                hl_delete_common exact n (fst y) (snd y) s
+            | t :: rest1 =>
+                if is_type_arg t then hl_delete_bytype exact n t rest1 s
+                else do y <- rdataset_from_args true rest; hl_delete_common exact n (fst y) (snd y) s
+            | [] => do y <- rdataset_from_args true rest; hl_delete_common exact n (fst y) (snd y) s
             end
         | ARRset n r => hl_delete_common exact n (Some r) rest s
         | _ => Lib eTypeError
